@@ -145,11 +145,11 @@ Proof.
     destruct (negb (peer_row_ok a)); [reflexivity|].
     destruct t as [expected|inv|inv ap signer].
     + destruct (N.eqb expected (a_key a)); [|reflexivity].
-      destruct (N.eqb lk (a_key a)); destruct ev; cbv -[zn Z.eqb]; rewrite ?Z.eqb_refl, ?orb_true_r; reflexivity.
-    + destruct ev; cbv -[zn Z.eqb]; rewrite ?Z.eqb_refl, ?orb_true_r; reflexivity.
+      destruct (N.eqb lk (a_key a)); destruct ev; cbv -[zn Z.eqb orb andb a_key]; rewrite ?Z.eqb_refl, ?orb_true_r; reflexivity.
+    + destruct ev; cbv -[zn Z.eqb orb andb a_key]; rewrite ?Z.eqb_refl, ?orb_true_r; reflexivity.
     + destruct signer as [s|]; [|reflexivity].
       destruct (N.eqb s (a_key a)); [|reflexivity].
-      destruct ev; cbv -[zn Z.eqb]; rewrite ?Z.eqb_refl, ?orb_true_r; reflexivity.
+      destruct ev; cbv -[zn Z.eqb orb andb a_key]; rewrite ?Z.eqb_refl, ?orb_true_r; reflexivity.
   - destruct (fail_holds ch lk t r ev Ent) as [F1 F2].
     destruct (init_connection ch lk t r ev) as [res es]. cbn [fst snd] in F1, F2. subst es.
     destruct res; try (exfalso; apply F2; reflexivity); reflexivity.
@@ -239,7 +239,7 @@ Proof.
     { intros inv E M. subst tr. cbn [tok_of_ref]. eapply lookup_unseen; eassumption. }
     destruct (get_token_type m (tok_of_ref m tr) (p_key p)) as [t|] eqn:G.
     + assert (Seen : match tr with RInv inv => mem_n inv seen = true | _ => True end).
-      { destruct tr as [inv|q|]; try exact I0. destruct (mem_n inv seen) eqn:M; [reflexivity|].
+      { destruct tr as [inv|q|]; try exact Logic.I. destruct (mem_n inv seen) eqn:M; [reflexivity|].
         specialize (Unseen inv eq_refl M). discriminate Unseen. }
       destruct t as [k|inv|inv a s].
       * cbn [spec_ops op_ok seen_after]. rewrite (IH m seen I). rewrite andb_true_r.
@@ -356,9 +356,12 @@ Proof.
     assert (P' : owned_placed (pm_tokens (create_invite m i))).
     { intros t j Hin. unfold create_invite, push in Hin. cbn [pm_tokens] in Hin. apply in_app_or in Hin.
       destruct Hin as [Hin|[Hin|[]]]; [apply P; exact Hin | inversion Hin; reflexivity]. }
-    specialize (IH (create_invite m i) P'). unfold create_invite, push in IH at 2. cbn [pm_tokens] in IH.
-    rewrite count_owned_app in IH. unfold count_owned at 2 in IH. cbn [filter fst snd token_eqb is_owned] in IH.
-    fold (creates inv ops) in *. destruct (N.eqb i inv); cbn [andb length] in *; lia.
+    specialize (IH (create_invite m i) P').
+    assert (C : count_owned inv (pm_tokens (create_invite m i)) =
+                (count_owned inv (pm_tokens m) + (if N.eqb i inv then 1 else 0))%nat).
+    { unfold create_invite, push. cbn [pm_tokens]. rewrite count_owned_app. f_equal.
+      unfold count_owned. cbn [filter fst snd token_eqb is_owned]. destruct (N.eqb i inv); reflexivity. }
+    fold (creates inv ops) in *. Show. destruct (N.eqb i inv); cbn [length] in *; lia.
   - (* accept *)
     unfold creates. cbn [filter]. fold (creates inv ops).
     destruct (accept_invite m b) as [m'|] eqn:A; cbn [owned_successes].
@@ -367,8 +370,11 @@ Proof.
       assert (P' : owned_placed (pm_tokens (push m (TkInvite i) (TInvite i a s)))).
       { intros t j Hin. unfold push in Hin. cbn [pm_tokens] in Hin. apply in_app_or in Hin.
         destruct Hin as [Hin|[Hin|[]]]; [apply P; exact Hin | discriminate Hin]. }
-      specialize (IH _ P'). unfold push in IH at 2. cbn [pm_tokens] in IH. rewrite count_owned_app in IH.
-      unfold count_owned at 2 in IH. cbn [filter fst snd is_owned] in IH. rewrite andb_false_r in IH. cbn [length] in IH. lia.
+      specialize (IH _ P').
+      assert (C : count_owned inv (pm_tokens (push m (TkInvite i) (TInvite i a s))) = count_owned inv (pm_tokens m)).
+      { unfold push. cbn [pm_tokens]. rewrite count_owned_app. unfold count_owned at 2. cbn [filter fst snd is_owned].
+        rewrite andb_false_r. cbn [length]. lia. }
+      lia.
     + specialize (IH m P). lia.
   - (* lookup *)
     destruct (lookup_obs (get_token_type m (tok_of_ref m tr) k)) as [a b].
